@@ -1,14 +1,9 @@
 SPECIFICATION GSpec
 CONSTANTS
-  Sizes <- SizesSmall
-  NB = 4
-  Kind = "small"
-  UnitMs = 250
-  Abs = TRUE
+  Kinds = {"small"}
   Times = {1, 2, 17, 21, 61}
-  Deltas <- NoTimes
   Start = 1
   ChkSet = {FALSE}
-  GenDepth = 4
+  GenDepth = 5
 INVARIANT Emit
 CHECK_DEADLOCK FALSE
